@@ -343,4 +343,131 @@ theorem aliasSafe_facts {sp : Spec} (h : aliasSafeB sp = true) :
   · rw [hc] at h1; exact absurd h1 (by decide)
   · exact h1
 
+/-! ### Completeness of the source-level checkers; sequences of catalogue operations -/
+
+theorem soundB_complete {sp : Spec} (h : SoundFacts sp) : soundB sp = true := by
+  unfold soundB
+  simp only [Bool.and_eq_true, List.all_eq_true, List.contains_iff_mem, Bool.not_eq_eq_eq_not, Bool.not_true]
+  exact ⟨⟨⟨⟨⟨h.restamps, h.deletes⟩, h.recomputes⟩, h.wrapper⟩, h.registered⟩, h.exclFree⟩
+
+theorem aliasSafeB_complete {sp : Spec}
+    (h : ∀ e ∈ sp.editors, (sp.sharedOnCopy.contains e.attr = true → e.detaches = true)) : aliasSafeB sp = true := by
+  unfold aliasSafeB
+  rw [List.all_eq_true]
+  intro e he
+  cases hc : sp.sharedOnCopy.contains e.attr with
+  | false => simp
+  | true => simp [h e he hc]
+
+/-- one call of a catalogue operation: its clear site, the views read under the lock / written from the changed
+table, the new content, whether the trailing clear is still there -/
+structure OpCall where
+  c : ClearSite
+  pre : List View
+  post : List View
+  v : Nat
+  t : Nat
+  withClear : Bool
+
+def opsRun (sp : Spec) : St → List OpCall → St
+  | s, [] => s
+  | s, o :: os => opsRun sp (run sp s (opPrims sp s o.c o.pre o.post o.v o.t o.withClear)) os
+
+/-- admissible sequence: every call site is one of the source, reads / writes concern cached views of the spec,
+every operation produces content not seen before -/
+def opsAdm (sp : Spec) : St → List OpCall → Prop
+  | _, [] => True
+  | s, o :: os => (o.c ∈ sp.clearSites ∧ (∀ v ∈ o.pre, v ∈ sp.views) ∧ (∀ v ∈ o.post, v ∈ sp.views) ∧ s.hi ≤ o.v) ∧
+      opsAdm sp (run sp s (opPrims sp s o.c o.pre o.post o.v o.t o.withClear)) os
+
+/-! ### Sequences of reads -/
+
+theorem J_fill {sp : Spec} {s : St} (h : J sp s) {v : View} (hv : v ∈ sp.views) : J sp (run sp s (fillPrims s v)) := by
+  have ha : v.attr ∈ cachedAttrs sp := mem_cachedAttrs.mpr ⟨v, hv, rfl⟩
+  unfold fillPrims
+  split
+  · exact h
+  · by_cases hsc : v.selfCopy = true
+    · simp only [hsc, if_true, run, List.cons_append, List.nil_append, List.foldl_cons, List.foldl_nil, step]
+      exact J_put (J_isStale h) ha
+    · simp only [hsc, run]
+      exact J_put h ha
+
+/-- a wrapped read on an unlocked neuron keeps the invariant, the lock state and the content -/
+theorem J_readS {sp : Spec} (hs : SoundFacts sp) {s : St} (h : J sp s) (hl : s.lock = 0) {v : View}
+    (hv : v ∈ sp.views) (hw : v.wrapped = true) :
+    J sp (readS sp s v) ∧ (readS sp s v).lock = 0 ∧ (readS sp s v).ver = s.ver := by
+  have hver := (read_current hs h hl hw).2
+  rw [readS_eq] at hver ⊢
+  have hp : viewPrefix sp s v = wrapperPrims sp s := by simp [viewPrefix, hw]
+  rw [hp] at hver ⊢
+  obtain ⟨_, _, _, e4, _, hJ⟩ := wrapper_establishes hs h hl
+  exact ⟨J_fill hJ hv, by rw [fill_lock]; exact e4, hver⟩
+
+theorem J_readsS {sp : Spec} (hs : SoundFacts sp) : ∀ (vs : List View) {s : St}, J sp s → s.lock = 0 →
+    (∀ v ∈ vs, v ∈ sp.views ∧ v.wrapped = true) →
+    J sp (readsS sp s vs) ∧ (readsS sp s vs).lock = 0 ∧ (readsS sp s vs).ver = s.ver := by
+  intro vs
+  induction vs with
+  | nil => intro s h hl _; exact ⟨h, hl, rfl⟩
+  | cons v vs ih =>
+    intro s h hl hv
+    obtain ⟨j, l, e⟩ := J_readS hs h hl (hv v (by simp)).1 (hv v (by simp)).2
+    obtain ⟨j2, l2, e2⟩ := ih j l (fun w hw => hv w (by simp [hw]))
+    exact ⟨j2, l2, e2.trans e⟩
+
+/-! ### Nesting of `@lock_neuron` calls, pickling, copying (final theorem pass) -/
+
+/-- a call nested inside a locked function skips the entry check -/
+theorem lockEntryPrims_locked (sp : Spec) {s : St} (hl : 0 < s.lock) : lockEntryPrims sp s = [] := by
+  unfold lockEntryPrims; simp [hl]
+
+/-- taking the lock again keeps "all entries current, lock held" -/
+theorem AllCur_lock {sp : Spec} {s : St} {v0 : Nat} (h : AllCur s v0) : AllCur (step sp s .lock) v0 :=
+  ⟨h.ver, Nat.succ_pos _, h.cur⟩
+
+/-- a locked call nested in a locked call: outer entry, lock, `pre`, the whole inner call (entry skipped, lock,
+`inner`, unlock or not according to the `finally`), `post`, unlock — the counter returns to where it was -/
+theorem nested_lockedCall_lock {sp : Spec} (hf : sp.lockFinally = true) (s : St) (pre inner post : List Ev)
+    (hpre : ∀ e ∈ pre, lockNeutral e = true) (hin : ∀ e ∈ inner, lockNeutral e = true)
+    (hpost : ∀ e ∈ post, lockNeutral e = true) (ri ro : Bool) :
+    let s1 := run sp s (lockEntryPrims sp s ++ [Ev.lock] ++ pre)
+    (run sp s (lockedCall sp s (pre ++ lockedCall sp s1 inner ri ++ post) ro)).lock = s.lock := by
+  intro s1
+  have h1 : s1.lock = s.lock + 1 := by
+    show (run sp s (lockEntryPrims sp s ++ [Ev.lock] ++ pre)).lock = _
+    rw [run_append, run_append, run_lock_neutral sp pre _ hpre]
+    show (run sp s (lockEntryPrims sp s)).lock + 1 = _
+    rw [run_lock_neutral sp _ s (lockEntryPrims_neutral sp s)]
+  unfold lockedCall
+  simp only [hf, Bool.not_true, Bool.and_false, Bool.false_eq_true, if_false]
+  have e : lockEntryPrims sp s ++ [Ev.lock] ++ (pre ++ (lockEntryPrims sp s1 ++ [Ev.lock] ++ inner ++ [Ev.unlock]) ++ post) ++ [Ev.unlock]
+      = (lockEntryPrims sp s ++ [Ev.lock] ++ pre) ++ ((lockEntryPrims sp s1 ++ [Ev.lock] ++ inner ++ [Ev.unlock]) ++ (post ++ [Ev.unlock])) := by
+    simp [List.append_assoc]
+  rw [e, run_append, run_append]
+  have hi : (run sp s1 (lockEntryPrims sp s1 ++ [Ev.lock] ++ inner ++ [Ev.unlock])).lock = s1.lock := by
+    have := lockedCall_lock hf s1 inner hin false
+    unfold lockedCall at this
+    simpa [hf] using this
+  show (run sp (run sp s1 (lockEntryPrims sp s1 ++ [Ev.lock] ++ inner ++ [Ev.unlock])) (post ++ [Ev.unlock])).lock = s.lock
+  generalize run sp s1 (lockEntryPrims sp s1 ++ [Ev.lock] ++ inner ++ [Ev.unlock]) = s2 at hi
+  rw [run_append, ]
+  show (run sp s2 post).lock - 1 = s.lock
+  rw [run_lock_neutral sp post s2 hpost, hi, h1]
+  omega
+
+theorem has_pickleS_drop (sp : Spec) (s : St) {a : Attr} (ha : a ∈ sp.getstateDrops) : has (pickleS sp s) a = false := by
+  unfold has pickleS
+  rw [Bool.eq_false_iff]
+  intro h
+  rw [List.any_eq_true] at h
+  obtain ⟨p, hp, hpa⟩ := h
+  simp only [List.mem_filter] at hp
+  have : p.1 = a := by simpa using hpa
+  rw [this] at hp
+  simp [ha] at hp
+
+theorem copyS_not_stale (sp : Spec) {s : St} (h : (isStaleS sp s).stale = false) : copyS sp s = unlocked sp s := by
+  unfold copyS; simp [h]
+
 end Navis.Cache
